@@ -43,19 +43,20 @@ type Options struct {
 	// MapOrderPkgs restricts MapOrder to range statements in functions of packages with one of
 	// these path prefixes (empty = everywhere)
 	MapOrderPkgs []string
-	Sched    int  // SchedLow, SchedHigh, SchedExplore
+	Sched        int // SchedLow, SchedHigh, SchedExplore
 	// MaxPreempt bounds the preemptive context switches per path under SchedExplore (switches
 	// when the running goroutine blocks or exits are always explored)
 	MaxPreempt int
-	Budget   int  // instruction budget per path
-	MaxConc  int  // maximum number of values enumerated by one concretisation
-	Observe  map[string]bool
+	Budget     int // instruction budget per path
+	MaxConc    int // maximum number of values enumerated by one concretisation
+	Observe    map[string]bool
 }
 
 // State shared between all interpreted goroutines of one worker.
 type interpreter struct {
 	prog               *ssa.Program
 	globals            map[*ssa.Global]*value
+	setByHarness       map[*ssa.Global]bool // globals of skipped initialisers that the harness stored to on this path
 	mode               Mode
 	runtimeErrorString types.Type
 	sizes              types.Sizes
@@ -117,7 +118,7 @@ func (fr *frame) get(key ssa.Value) value {
 	case *ssa.Const:
 		return constValue(key)
 	case *ssa.Global:
-		if pkg, bad := fr.i.eng.uninit[key]; bad {
+		if pkg, bad := fr.i.eng.uninit[key]; bad && !fr.i.setByHarness[key] {
 			panic(engineError{fmt.Sprintf("global %s is used by %s but the initialiser of package %s is not run by the engine (it would hold its zero value)", key.String(), fr.fn, pkg)})
 		}
 		if r, ok := fr.i.globals[key]; ok {
@@ -346,6 +347,16 @@ func visitInstr(fr *frame, instr ssa.Instruction) continuation {
 		i.sch.send(fr.get(instr.Chan).(*schan), fr.get(instr.X))
 
 	case *ssa.Store:
+		if g, ok := instr.Addr.(*ssa.Global); ok {
+			// a harness may give a value to a global that a skipped package initialiser would
+			// have set (os.Args); from then on, on this path, the global may be used
+			if _, un := i.eng.uninit[g]; un && fr.fn.Pkg != nil && strings.Contains(fr.fn.Pkg.Pkg.Path(), "/"+harnessDir+"/") {
+				if i.setByHarness == nil {
+					i.setByHarness = map[*ssa.Global]bool{}
+				}
+				i.setByHarness[g] = true
+			}
+		}
 		addr := fr.get(instr.Addr)
 		switch a := addr.(type) {
 		case *value:
@@ -599,6 +610,9 @@ func loc(fset *token.FileSet, pos token.Pos) string {
 // interpretBody is returned by an intrinsic that declines a call: the function's real SSA body is
 // interpreted instead.
 type interpretBody struct{}
+
+// harnessDir: the directory (below the module under test) that holds the overlaid harness packages.
+const harnessDir = "zzverif"
 
 func callSSA(i *interpreter, caller *frame, callpos token.Pos, fn *ssa.Function, args []value, env []value) value {
 	if i.mode&EnableTracing != 0 {
